@@ -762,7 +762,7 @@ def get_placeholder_value(
                 return tuple(-np.ones(s.shape) for s in agent_space)
             else:
                 # For normal spaces
-                return -np.ones_like(agent_space.shape)
+                return -np.ones(agent_space.shape)
 
 
 def process_transition(
@@ -783,8 +783,8 @@ def process_transition(
     :type agents: List[str]
     """
     transition_list = list(transitions)
-    for transition, name in zip(transition_list, transition_names):
-        transition = {
+    for idx, (transition, name) in enumerate(zip(transition_list, transition_names)):
+        transition_list[idx] = {
             agent: (
                 transition[agent]
                 if agent in transition.keys()
@@ -905,14 +905,16 @@ def _async_worker(
                     for idx, possible_agent in enumerate(agents)
                 }
                 observation, reward, terminated, truncated, info = env.step(data)
-                transition = observation, reward, terminated, truncated, info
                 if all(
                     [
                         term | trunc
                         for term, trunc in zip(terminated.values(), truncated.values())
                     ]
                 ):
+                    # Autoreset: return the first observation (and info) of the new episode
                     observation, info = env.reset()
+
+                transition = observation, reward, terminated, truncated, info
                 observation, reward, terminated, truncated, info = process_transition(
                     transition,
                     observation_space,
